@@ -2,7 +2,11 @@
 
 For every class and parameter choice the unit-to-unit function d(u1, u2) and the compiled array form (observed through
 UnitaryAlignment([(a, u1), (b, u2)]).compute_disorder(d), which for two annotators is exactly the kernel value) are compared with
-the exact-rational Gallina formula (Dissim/Model.v) built from the constructor arguments alone."""
+the exact-rational Gallina formula (Dissim/Model.v) built from the constructor arguments alone.
+
+Besides this correspondence, the bodies of d() and of the compiled kernels (positional, absolute, table, combined), _category_index and the row
+written by _build_arrays_continuum are translated from the current dissimilarity.py (harness/gen_tables.py -> coq/genprops/DissimGen.v) and the
+C04_src_* theorems of props/C04.v are re-proved against the translation before the correspondence runs."""
 import random
 from fractions import Fraction
 
@@ -17,6 +21,7 @@ RULE = ("dissimilarity objects from VERIF_SEED: positional, absolute, precompute
         "the model formula within 2^-17 relative, be symmetric, non-negative and zero on identical units. non-trivial = both units real with "
         "different segments or categories; distinct by (object description, unit pair)")
 TRUSTED_BASE = ["Coq 8.16.1 kernel", "extraction (ExtrOcamlBasic only), ocaml/driver.ml",
+                "harness/gen_tables.py: fail-closed expression translator dissimilarity.py -> genprops/DissimGen.v (float32 operators read as exact rational ones)",
                 "harness/{common,c04}.py: the model description is built from the constructor arguments, never from the object's internals"]
 ASSUMPTIONS = ["float32 rounding of the kernels: relative tolerance 2^-17", "table-based categorical dissimilarities only on labels of their table",
                "ordinal dissimilarity without explicit positions: the supplied order of the labels IS their position (DESIGN 6)"]
